@@ -339,3 +339,40 @@ def is_awaited_result_of(e, stable, site=None):
         else:
             return False
     return False
+
+
+def full_slice_element(link, slice_expr=None):
+    """link is the element of a plain `for x in slice.iter[_mut]()[.enumerate()]` loop - no filter / skip / take / rev / zip
+    adaptor in between.  Returns the iterated slice expression, or None."""
+    x = link
+    # enumerate: (next(..) as Some).0.1 ; plain: (next(..) as Some).0
+    if not (isinstance(x, tuple) and x and x[0] == "field"):
+        return None
+    if x[3] == "1" and x[1][0] == "field" and x[1][3] == "0":
+        x = x[1]
+        enum = True
+    elif x[3] == "0":
+        enum = False
+    else:
+        return None
+    x = x[1]
+    if not (x[0] == "as" and x[2] == "Some"):
+        return None
+    x = x[1]
+    if not is_iter_next(x) or not x[2]:
+        return None
+    x = x[2][0]
+    if is_call(x, name_contains="IntoIterator>::into_iter"):
+        x = x[2][0]
+    if enum:
+        if not is_call(x, name_contains="Iterator::enumerate"):
+            return None
+        x = x[2][0]
+    if not (is_call(x) and (x[1].endswith("<impl [T]>::iter_mut") or x[1].endswith("<impl [T]>::iter"))):
+        return None
+    sl = x[2][0]
+    while isinstance(sl, tuple) and sl and sl[0] == "call" and (sl[1].endswith("::deref_mut") or sl[1].endswith("::deref")):
+        sl = sl[2][0]
+    if slice_expr is not None and sl != slice_expr:
+        return None
+    return sl
